@@ -4,7 +4,7 @@ from fv.symx import And, Or, Not, Eq, Implies, Iff
 
 # module kinds -------------------------------------------------------------------------------------
 # every builder returns (yaml-info dict, spec record) ; numbers come from I (symbolic or concrete)
-KINDS = ['F1flat', 'H1flat', 'H2eq', 'S2eq', 'S_area', 'S_center_ar', 'S_regions', 'S_one_region', 'S_one_region_rect', 'S_rect', 'S_regions_rects', 'H1', 'H2flip', 'H2', 'H3', 'F1', 'T', 'Tfixed']
+KINDS = ['F1flat', 'H1flat', 'H2eq', 'S2eq', 'S_area', 'S_center_ar', 'S_regions', 'S_one_region', 'S_one_region_rect', 'S_rect', 'S_center_rects', 'S_regions_rects', 'H1', 'H2flip', 'H2', 'H3', 'F1', 'T', 'Tfixed']
 
 
 def build_module(I, name, kind, idx):
@@ -47,6 +47,16 @@ def build_module(I, name, kind, idx):
         info = {'area': a, 'rectangles': [[x0 + x + w / 2, 1.0, w, 2.0]]}
         spec['areas'] = {'_': a}
         spec['rects'] = [(x0 + x + w / 2, 1.0, w, 2.0, '_')]
+    elif kind == 'S_center_rects':
+        # a stated centre AND rectangles: the loaded centre is the centroid of the rectangles, not the stated one
+        a = I.real(t + 'a', 0.01, 100)
+        cx, cy = I.real(t + 'cx', 0, 100), I.real(t + 'cy', 0, 100)
+        x, w0, w1 = I.real(t + 'x', 0, 2), I.real(t + 'w0', 0.1, 3), I.real(t + 'w1', 0.1, 3)
+        r0 = [x0 + x + w0 / 2, 1.0, w0, 2.0]
+        r1 = [x0 + x + w0 + w1 / 2, 0.5, w1, 1.0]
+        info = {'area': a, 'center': [cx, cy], 'rectangles': [r0, r1]}
+        spec['areas'] = {'_': a}
+        spec['rects'] = [tuple(r0) + ('_',), tuple(r1) + ('_',)]
     elif kind == 'S_regions_rects':
         a, b = I.real(t + 'a', 0.01, 100), I.real(t + 'b', 0.01, 100)
         x, w0, w1 = I.real(t + 'x', 0, 2), I.real(t + 'w0', 0.1, 3), I.real(t + 'w1', 0.1, 3)
@@ -181,6 +191,7 @@ STRUCTS = {
         dict(modules=['S_one_region', 'H3', 'S_one_region_rect'], nets=[((2, 0, 1), 'sym')]),
         dict(modules=['F1flat', 'H2eq', 'S2eq'], nets=[((0, 1), 'sym'), ((1, 2), 'none')]),
         dict(modules=['H1flat', 'S_area'], nets=[((0, 1), 'one')]),
+        dict(modules=['S_center_rects', 'Tfixed'], nets=[((0, 1), 'sym')]),
     ],
     'thorough': [
         dict(modules=['S_regions', 'H2flip', 'F1'], nets=[((0, 1, 2), 'sym'), ((2, 0), 'none')]),
